@@ -808,8 +808,8 @@ func runC14(c *Ctx) {
 	// exactness of the index: chunk numbering and asynchronous chunk copies (shared with C13)
 	checkChunkNumbering(c)
 	checkIndexTime(c)
-	if n := checkLoopVarCapture(c, "loopvar", "pkg/core"); n < 2 {
-		c.fail("loopvar", "instances", "-", "expected at least 2 asynchronous closures inside loops in pkg/core, found "+itoa(n))
+	if n := checkLoopVarCapture(c, "loopvar", "pkg/core"); n < 1 {
+		c.fail("loopvar", "instances", "-", "expected at least 1 asynchronous closure inside a loop in pkg/core, found "+itoa(n))
 	}
 	checkGenericErrorDiscipline(c, "pkg/core")
 	checkLeafSizeFromDescriptor(c, "index.leaf-size-from-descriptor", "pkg/core", "pkg/fuse")
